@@ -55,6 +55,7 @@ def main (args : List String) : IO UInt32 := do
   | ["codec"] => loopPure stdin stdout codecStep; return 0
   | "crash" :: _ => loopState stdin stdout crashStep ({} : CrashSt); return 0
   | "dispatch" :: _ => loopState stdin stdout dispatchStep dispatchInit; return 0
+  | ["agg"] => loopState stdin stdout aggStep AggState.empty; return 0
   | ["store", backend] =>
     match storeInit backend with
     | some st => loopState stdin stdout storeStep st; return 0
